@@ -143,6 +143,9 @@ func (m *maxDifferenceWatermarkGenerator) Run(ctx execution.ExecutionContext, pr
 	if err != nil {
 		return fmt.Errorf("couldn't evaluate resolution: %w", err)
 	}
+	if resolution.Duration <= 0 {
+		return fmt.Errorf("resolution must be positive, got %s", resolution.Duration)
+	}
 
 	if err := m.source.Run(ctx, func(ctx execution.ProduceContext, record execution.Record) error {
 		if record.Values[m.timeFieldIndex].Time.After(curWatermark) {
@@ -152,7 +155,13 @@ func (m *maxDifferenceWatermarkGenerator) Run(ctx execution.ExecutionContext, pr
 			}
 		}
 
-		curTimeValueRoundedDown := time.Unix(0, record.Values[m.timeFieldIndex].Time.UnixNano()/int64(resolution.Duration)*int64(resolution.Duration))
+		// Round down to a multiple of the resolution, also for times before 1970 (integer division would round those up).
+		timeValueNano := record.Values[m.timeFieldIndex].Time.UnixNano()
+		remainder := timeValueNano % int64(resolution.Duration)
+		if remainder < 0 {
+			remainder += int64(resolution.Duration)
+		}
+		curTimeValueRoundedDown := time.Unix(0, timeValueNano).Add(-time.Duration(remainder))
 
 		if curTimeValueRoundedDown.After(maxValue) {
 			maxValue = curTimeValueRoundedDown
